@@ -79,6 +79,13 @@ Theorem C08_wrappers_too_long : forall v, 255 < len v ->
 Proof. exact wrappers_too_long. Qed.
 Print Assumptions C08_wrappers_too_long.
 
+(* entity-ID TLVs compare by numerical value, for every ID length, and the comparison never raises *)
+Theorem C08_entity_eq : forall a b,
+  entity_eqb a b = Ok (be_decode (tlv_value a) =? be_decode (tlv_value b)) /\
+  (tlv_value a = tlv_value b -> entity_eqb a b = Ok true).
+Proof. exact entity_eqb_spec. Qed.
+Print Assumptions C08_entity_eq.
+
 (* ---------------- fault handler override ---------------- *)
 Theorem C08_fault_roundtrip : forall cc hc rest, 0 <= cc <= 15 -> 0 <= hc <= 15 ->
   exists f, fault_new cc hc = Ok f /\ fh_cc f = cc /\ fh_hc f = hc /\
